@@ -126,6 +126,11 @@ func (s *Server) livesimHandlerFunc(w http.ResponseWriter, r *http.Request) {
 		}
 	case ".mp4", ".m4s", ".cmfv", ".cmfa", ".cmft", ".jpg", ".jpeg", ".m4v", ".m4a":
 		segmentPart := strings.TrimPrefix(contentPart, a.AssetPath) // includes heading slash
+		if segmentPart == "" {
+			// the URL names an asset directory that happens to end in a media extension
+			http.Error(w, "Not Found", http.StatusNotFound)
+			return
+		}
 		if len(cfg.Traffic) > 0 {
 			var patternNr int
 			patternNr, segmentPart = extractPattern(segmentPart)
